@@ -1,4 +1,4 @@
-import MetadorModel.Bridge.TocFnsPkg
+import MetadorModel.Bridge.TocFnsPaths
 /-!
 # Bridge: translated `TOCSchemas` = model
 -/
@@ -354,46 +354,6 @@ theorem gen_parent_path (name : String) (v : Ver) (s : St) :
     TOCSchemas.parent_path (name, some v) none s = ofOpt .key (alGet s.c.parents ⟨name, v⟩) s := by
   simp [TOCSchemas.parent_path, pluginArgs, optValue, dictGetItem]
 
-theorem mem_iff_alGet {α β : Type} [DecidableEq α] : ∀ (l : List (α × β)), (alKeys l).Nodup → ∀ (a : α) (b : β),
-    (a, b) ∈ l ↔ alGet l a = some b
-  | [], _, a, b => by simp
-  | (k, v) :: t, h, a, b => by
-    simp only [alKeys, List.map_cons, List.nodup_cons] at h
-    have ih := mem_iff_alGet t h.2 a b
-    simp only [List.mem_cons, Prod.mk.injEq, alGet_cons]
-    by_cases hk : k = a
-    · subst hk
-      simp only [if_true, Option.some.injEq]
-      constructor
-      · rintro (hv | hm)
-        · exact hv.2.symm
-        · exact absurd (List.mem_map_of_mem (f := Prod.fst) hm) h.1
-      · rintro rfl; exact Or.inl ⟨trivial, rfl⟩
-    · simp only [hk, if_false, ← ih]
-      constructor
-      · rintro (⟨rfl, _⟩ | hm)
-        · exact absurd rfl hk
-        · exact hm
-      · exact Or.inr
-
-theorem mem_foldl_setAdd {α : Type} [DecidableEq α] (x : α) : ∀ (l acc : List α),
-    x ∈ l.foldl setAdd acc ↔ x ∈ acc ∨ x ∈ l
-  | [], acc => by simp
-  | a :: l, acc => by
-    simp only [List.foldl_cons, mem_foldl_setAdd x l, mem_setAdd, List.mem_cons]
-    tauto
-
-theorem mem_pyUnion_aux {α : Type} [DecidableEq α] (x : α) : ∀ (ls : List (List α)) (acc : List α),
-    x ∈ ls.foldl (fun acc l => l.foldl setAdd acc) acc ↔ x ∈ acc ∨ ∃ l ∈ ls, x ∈ l
-  | [], acc => by simp
-  | l :: ls, acc => by
-    simp only [List.foldl_cons, mem_pyUnion_aux x ls, mem_foldl_setAdd, List.mem_cons, exists_eq_or_imp]
-    tauto
-
-theorem mem_pyUnion {α : Type} [DecidableEq α] (x : α) (ls : List (List α)) :
-    x ∈ pyUnion ls ↔ ∃ l ∈ ls, x ∈ l := by
-  simp [pyUnion, mem_pyUnion_aux]
-
 theorem gen_children (name : String) (kv ver : Option Ver) (s : St) (hk : (alKeys s.c.children).Nodup) :
     ∃ l, TOCSchemas.children (name, kv) ver s = (.ok l, s) ∧
       ∀ x, x ∈ l ↔ match (pluginArgs (name, kv) ver).2 with
@@ -414,5 +374,242 @@ theorem gen_children (name : String) (kv ver : Option Ver) (s : St) (hk : (alKey
     refine ⟨_, rfl, fun x => ?_⟩
     simp only [mem_pyUnion, tocChildren, pluginArgs]
     cases h : alGet s.c.children ⟨name, v⟩ <;> simp [h]
+
+
+
+/-! ### `TOCSchemas.__init__` (load loop) -/
+
+theorem alSet_absent {α β : Type} [DecidableEq α] : ∀ (l : List (α × β)) (a : α) (b : β), a ∉ alKeys l →
+    alSet l a b = l ++ [(a, b)]
+  | [], a, b, _ => rfl
+  | (k, v) :: t, a, b, h => by
+    simp only [alKeys, List.map_cons, List.mem_cons, not_or] at h
+    have hk : ¬ k = a := fun e => h.1 e.symm
+    simp only [alSet, hk, if_false, List.cons_append]
+    rw [alSet_absent t a b h.2]
+
+/-- the loop `for pkg in self._pkgs.keys(): self._used[pkg] = set()` -/
+def usedInitStep : PkgId → M Unit := fun pkg => modC fun c => { c with used := alSet c.used pkg [] }
+
+theorem usedInitStep_loop : ∀ (l : List PkgId) (s : St), l.Nodup → (∀ k ∈ l, k ∉ alKeys s.c.used) →
+    forEachM l usedInitStep s = (.ok (), { s with c := { s.c with used := s.c.used ++ l.map fun k => (k, []) } })
+  | [], s, _, _ => by simp
+  | k :: l, s, hn, hf => by
+    simp only [List.nodup_cons] at hn
+    have hstep : usedInitStep k s = (.ok (), { s with c := { s.c with used := alSet s.c.used k [] } }) := rfl
+    simp only [forEachM_cons, mrun, hstep]
+    rw [usedInitStep_loop l _ hn.2]
+    · simp [alSet_absent _ k _ (hf k (by simp))]
+    · intro k' hk'
+      simp only [alSet_absent _ k _ (hf k (by simp)), alKeys, List.map_append, List.map_cons, List.map_nil,
+        List.mem_append, List.mem_singleton, not_or]
+      exact ⟨hf k' (by simp [hk']), fun e => hn.1 (e ▸ hk')⟩
+
+/-- the fold of `loadSchemas` over the providers of a schema -/
+def loadUsedF (r : SRef) (u : List (PkgId × List SRef)) (pkg : PkgId) : List (PkgId × List SRef) :=
+  alSet u pkg (setAdd ((alGet u pkg).getD []) r)
+
+theorem usedAddStep_loop (r : SRef) : ∀ (l : List PkgId) (s : St), (∀ pk ∈ l, (alGet s.c.used pk).isSome) →
+    forEachM l (usedAddStep r) s = (.ok (), { s with c := { s.c with used := l.foldl (loadUsedF r) s.c.used } })
+  | [], s, _ => by simp
+  | pk :: l, s, h => by
+    obtain ⟨cur, hcur⟩ := Option.isSome_iff_exists.mp (h pk (by simp))
+    have hstep : usedAddStep r pk s
+        = (.ok (), { s with c := { s.c with used := alSet s.c.used pk (setAdd cur r) } }) := by
+      simp [usedAddStep, mrun, hcur]
+    simp only [forEachM_cons, mrun, hstep]
+    rw [usedAddStep_loop r l]
+    · simp [loadUsedF, hcur]
+    · intro pk' hm
+      simp only [alGet_alSet]
+      split
+      · simp
+      · exact h pk' (by simp [hm])
+
+theorem usedAddStep_fun (ref : SRef) : usedAddStep ref = (fun pkg => do
+    let s ← getSt
+    let cur ← ofOpt .key (alGet s.c.used pkg)
+    modC fun c => { c with used := alSet c.used pkg (setAdd cur ref) }) := rfl
+
+/-- the fold function of `loadSchemas` -/
+def loadSchemaF (t : Tree) (c : Caches) (kn : Key × Node) : Caches :=
+  match kn.1 with
+  | .ep r =>
+    match get? t (schemaDir r ++ [.compat]) with
+    | some (.ds (.compat parents)) =>
+      { c with schemas := setAdd c.schemas r,
+               parents := (upcAdd r c.parents c.children [] parents).1,
+               children := (upcAdd r c.parents c.children [] parents).2,
+               used := ((alGet c.providers r).getD []).foldl (loadUsedF r) c.used }
+    | _ => c
+  | _ => c
+
+theorem loadSchemas_eq (t : Tree) (pi : List (PkgId × List SRef)) (pv : List (SRef × List PkgId)) :
+    loadSchemas t pi pv = (children t schemasP).foldl (loadSchemaF t)
+      { pkginfos := pi, providers := pv, used := pi.map fun e => (e.1, []) } := rfl
+
+/-- every package that provides something has a `_used` entry -/
+def UsedDom (pv : List (SRef × List PkgId)) (used : List (PkgId × List SRef)) : Prop :=
+  ∀ r ps pk, alGet pv r = some ps → pk ∈ ps → (alGet used pk).isSome
+
+theorem isSome_foldl_loadUsedF (r : SRef) (pk : PkgId) : ∀ (l : List PkgId) (u : List (PkgId × List SRef)),
+    (alGet u pk).isSome → (alGet (l.foldl (loadUsedF r) u) pk).isSome
+  | [], u, h => h
+  | a :: l, u, h => by
+    apply isSome_foldl_loadUsedF r pk l
+    simp only [loadUsedF, alGet_alSet]
+    split <;> simp [h]
+
+/-- one iteration of the load loop of `TOCSchemas.__init__` -/
+def schemaInitStep : Key × Path → M Unit := fun kn => do
+  let ep ← Key.epName kn.1
+  let s ← getSt
+  pyAssert (isGroup s.raw kn.2)
+  let cp ← rawGetItem s.raw (joinKey kn.2 Key.compat)
+  pyAssert (isDataset s.raw cp)
+  let v ← dsRead s.raw cp
+  let parents ← Val.jsonRefs v
+  modC fun c => { c with schemas := setAdd c.schemas (_schema_ref_for ep) }
+  upcM (_schema_ref_for ep) (some parents)
+  let s ← getSt
+  let provs ← ofOpt .key (alGet s.c.providers (_schema_ref_for ep))
+  forEachM provs (usedAddStep (_schema_ref_for ep))
+
+theorem run_schemaInitStep (t : Tree) (s : St) (r : SRef) (ps : List SRef) (provs : List PkgId) (hs : s.raw = t)
+    (hg : get? t (schemaDir r) = some .grp) (hc : get? t (schemaDir r ++ [.compat]) = some (.ds (.compat ps)))
+    (hp : alGet s.c.providers r = some provs) (hu : ∀ pk ∈ provs, (alGet s.c.used pk).isSome) :
+    schemaInitStep (.ep r, schemasP ++ [.ep r]) s = (.ok (), { s with c := loadSchemaF t s.c (.ep r, .grp) }) := by
+  have hg' : get? s.raw (schemasP ++ [Key.ep r]) = some .grp := by rw [hs]; exact hg
+  have hc' : get? s.raw (joinKey (schemasP ++ [Key.ep r]) Key.compat) = some (.ds (.compat ps)) := by rw [hs]; exact hc
+  have href : _schema_ref_for (r.name, r.ver) = r := rfl
+  simp only [schemaInitStep, Key.epName, mrun, isGroup, hg', beq_self_eq_true, has, hc', Option.isSome_some, if_true,
+    isDataset, dsRead, Val.jsonRefs, href, upcM, hp]
+  rw [usedAddStep_loop r provs]
+  · simp [loadSchemaF, hc, hp]
+  · exact hu
+
+/-- what `TOCSchemas.__init__` relies on (tree shape below `schemas/`, and the package caches loaded before) -/
+structure SchemaInitOK (s : St) : Prop where
+  keys : KeysOK s.raw
+  closed : PClosed s.raw
+  dir : get? s.raw schemasP = none ∨ get? s.raw schemasP = some .grp
+  ep : ∀ k n, get? s.raw (schemasP ++ [k]) = some n → ∃ r, k = .ep r ∧ n = .grp
+  compat : ∀ r, get? s.raw (schemaDir r) ≠ none → ∃ ps, get? s.raw (schemaDir r ++ [.compat]) = some (.ds (.compat ps))
+  prov : ∀ r, get? s.raw (schemaDir r) ≠ none → (alGet s.c.providers r).isSome
+  provpk : ∀ r ps pk, alGet s.c.providers r = some ps → pk ∈ ps → pk ∈ alKeys s.c.pkginfos
+  pkgs_nodup : (alKeys s.c.pkginfos).Nodup
+
+theorem loadSchemaF_keeps (t : Tree) (c : Caches) (kn : Key × Node) :
+    (loadSchemaF t c kn).providers = c.providers ∧ (loadSchemaF t c kn).pkginfos = c.pkginfos ∧
+      (loadSchemaF t c kn).tocPath = c.tocPath := by
+  unfold loadSchemaF; split
+  · split <;> simp
+  · simp
+
+theorem loadSchemaF_usedDom (t : Tree) (c : Caches) (kn : Key × Node) (pv) (h : UsedDom pv c.used) :
+    UsedDom pv (loadSchemaF t c kn).used := by
+  unfold loadSchemaF; split
+  · split
+    · intro r ps pk h1 h2; exact isSome_foldl_loadUsedF _ _ _ _ (h r ps pk h1 h2)
+    · exact h
+  · exact h
+
+theorem schemaInitStep_loop (t : Tree) (hcompat : ∀ r, get? t (schemaDir r) ≠ none →
+      ∃ ps, get? t (schemaDir r ++ [.compat]) = some (.ds (.compat ps)))
+    (pv : List (SRef × List PkgId)) (hprov : ∀ r, get? t (schemaDir r) ≠ none → (alGet pv r).isSome) :
+    ∀ (l : List (Key × Node)) (s : St), s.raw = t → s.c.providers = pv → UsedDom pv s.c.used →
+    (∀ kn ∈ l, get? t (schemasP ++ [kn.1]) = some kn.2 ∧ ∃ r, kn = (.ep r, .grp)) →
+    forEachM (l.map fun kn => (kn.1, schemasP ++ [kn.1])) schemaInitStep s
+      = (.ok (), { s with c := l.foldl (loadSchemaF t) s.c })
+  | [], s, _, _, _, _ => rfl
+  | kn :: rest, s, hs, hpv, hud, h => by
+    obtain ⟨hg, r, rfl⟩ := h kn (by simp)
+    have hg' : get? t (schemaDir r) = some .grp := hg
+    obtain ⟨ps, hps⟩ := hcompat r (by rw [hg']; simp)
+    obtain ⟨provs, hprovs⟩ := Option.isSome_iff_exists.mp (hprov r (by rw [hg']; simp))
+    have hp : alGet s.c.providers r = some provs := by rw [hpv]; exact hprovs
+    have hstep := run_schemaInitStep t s r ps provs hs hg' hps hp (fun pk hm => hud r provs pk hprovs hm)
+    simp only [List.map_cons, forEachM_cons, mrun, hstep]
+    have hk := loadSchemaF_keeps t s.c (Key.ep r, Node.grp)
+    rw [schemaInitStep_loop t hcompat pv hprov rest { s with c := loadSchemaF t s.c (Key.ep r, Node.grp) } hs
+      (by simp [hk.1, hpv]) (loadSchemaF_usedDom t s.c _ pv hud) (fun kn' hm => h kn' (by simp [hm]))]
+    simp
+
+theorem loadSchemaF_tocPath (t : Tree) (x : List (Nat × Path)) (c : Caches) (kn : Key × Node) :
+    loadSchemaF t { c with tocPath := x } kn = { loadSchemaF t c kn with tocPath := x } := by
+  unfold loadSchemaF; split
+  · split <;> rfl
+  · rfl
+
+theorem foldl_loadSchemaF_tocPath (t : Tree) (x : List (Nat × Path)) : ∀ (l : List (Key × Node)) (c : Caches),
+    l.foldl (loadSchemaF t) { c with tocPath := x } = { l.foldl (loadSchemaF t) c with tocPath := x }
+  | [], c => rfl
+  | kn :: l, c => by
+    simp only [List.foldl_cons, loadSchemaF_tocPath]
+    exact foldl_loadSchemaF_tocPath t x l _
+
+/-- the caches `loadSchemas` starts from -/
+def schemaC0 (s : St) : Caches :=
+  { pkginfos := s.c.pkginfos, providers := s.c.providers, used := s.c.pkginfos.map fun e => (e.1, []) }
+
+/-- the state `TOCSchemas.__init__` starts its load loop from -/
+def schemaInitSt (s : St) : St :=
+  { s with c := { tocPath := s.c.tocPath, pkginfos := s.c.pkginfos, providers := s.c.providers,
+                  used := s.c.pkginfos.map fun e => (e.1, []) } }
+
+theorem gen_schemas_init (s : St) (h : SchemaInitOK s) :
+    TOCSchemas.__init__ upcM s =
+      (.ok (), { s with c := { loadSchemas s.raw s.c.pkginfos s.c.providers with tocPath := s.c.tocPath } }) := by
+  simp only [TOCSchemas.__init__, mrun]
+  rw [forEachM_congr usedInitStep]
+  swap
+  · intro _; rfl
+  rw [usedInitStep_loop (s.c.pkginfos.map fun x => x.fst) _ (by simpa [alKeys] using h.pkgs_nodup) (by simp [alKeys])]
+  have hs0 : ∀ x : St, x = schemaInitSt s → x.raw = s.raw ∧ x.c.providers = s.c.providers ∧
+      UsedDom s.c.providers x.c.used := by
+    rintro x rfl
+    refine ⟨rfl, rfl, fun r ps pk h1 h2 => ?_⟩
+    have hm := h.provpk r ps pk h1 h2
+    simp only [schemaInitSt]
+    rw [alGet_isSome_iff]
+    simpa [alKeys] using hm
+  have hst : ({ raw := s.raw, c := { s.c with schemas := [], parents := [], children := [], used := [] ++ (s.c.pkginfos.map fun x => x.fst).map fun k => (k, []) }, next := s.next } : St) = schemaInitSt s := by
+    simp [schemaInitSt, alKeys]
+  rw [hst]
+  obtain ⟨hraw, hpv, hud⟩ := hs0 _ rfl
+  have htarget : ∀ l : List (Key × Node),
+      ({ schemaInitSt s with c := l.foldl (loadSchemaF s.raw) (schemaInitSt s).c } : St) =
+      { s with c := { l.foldl (loadSchemaF s.raw) (schemaC0 s) with tocPath := s.c.tocPath } } := by
+    intro l
+    have := foldl_loadSchemaF_tocPath s.raw s.c.tocPath l (schemaC0 s)
+    simp only [schemaInitSt]
+    rw [← this]
+    rfl
+  rcases h.dir with hd | hd
+  · have hch : children s.raw schemasP = [] := by
+      rw [List.eq_nil_iff_forall_not_mem]
+      rintro ⟨k, n⟩ hm
+      have hgk := (mem_children h.keys).mp hm
+      have hg := h.closed schemasP k (by rw [hgk]; simp)
+      rw [hd] at hg; cases hg
+    have hhas : has (schemaInitSt s).raw schemasP = false := by simp [has, hraw, hd]
+    simp only [mrun]
+    rw [if_neg (by simp [hhas])]
+    simp only [mrun, loadSchemas_eq, hch, List.foldl_nil]
+    rfl
+  · have hhas : has (schemaInitSt s).raw schemasP = true := by simp [has, hraw, hd]
+    simp only [hhas, if_true, mrun]
+    rw [run_rawRequireGroup_grp (by rw [hraw]; simpa using hd)]
+    simp only [mrun, groupItems]
+    rw [forEachM_congr schemaInitStep]
+    · rw [hraw, schemaInitStep_loop s.raw h.compat s.c.providers h.prov (children s.raw schemasP) (schemaInitSt s)
+        hraw hpv hud
+        (fun kn hm => by
+          have hg := (mem_children h.keys (k := kn.1) (n := kn.2)).mp hm
+          obtain ⟨r, hk', hn'⟩ := h.ep kn.1 kn.2 hg
+          exact ⟨hg, r, Prod.ext hk' hn'⟩)]
+      rw [loadSchemas_eq, htarget]; rfl
+    · rintro ⟨k, n⟩
+      simp only [schemaInitStep, usedAddStep_fun, dictGetItem, bind_pure_unit]
 
 end MetadorModel.Bridge.TocFns
